@@ -36,9 +36,9 @@ def reconcile_taxonomy_and_markers(
                 parent_grp = 'None'
             else:
                 parent_grp = f'{parent[0]}/{parent[1]}'
-                if len(taxonomy_tree.children(parent[0], parent[1])) == 1:
-                    # this parent only has one child; it does not matter
-                    # if there are markers for it or not
+                if len(taxonomy_tree.children(parent[0], parent[1])) < 2:
+                    # this parent has at most one child; it does not
+                    # matter if there are markers for it or not
                     continue
 
             if parent_grp not in markers:
